@@ -6,7 +6,7 @@
 From Tetl Require Import Lib.Base C02.Safe.
 From Tetl Require C08.Model C08.Spec C08.Core C08.ProofsFind C08.ProofsCmp C08.ProofsPtr C08.ProofsSafe C08.Properties.
 From Tetl Require C04.Model C04.ModelQ C04.Spec C04.SpecQ C04.Inv C04.InvOps C04.Total C04.QueryOk C04.Properties C04.Properties_query.
-From Tetl Require C10.Model C10.Spec C10.ProofsFmt C10.ProofsStrtoC C10.Properties.
+From Tetl Require C10.Model C10.Spec C10.ProofsFmt C10.Properties.
 From Tetl Require C18.Model C18.Spec C18.ProofsCtype C18.ProofsStr C18.Properties.
 Local Open Scope Z_scope.
 
@@ -145,8 +145,8 @@ Proof.
   - intros t s b Hb.
     assert (D : (b = 0 \/ 2 <= b <= 36) \/ (b < 0 \/ b = 1 \/ 36 < b)) by lia.
     destruct D as [D|D].
-    + assert (Hw : C10.ProofsStrtoC.cxx_width (bits t)) by (right; exact Hb).
-      pose proof (C10.Properties.C10_strto_correct t s b Hw D) as H.
+    + pose proof (C10.Properties.C10_strto_correct t s b) as H.
+      feed H ltac:(first [exact Hb | right; exact Hb | cbv; lia]). specialize (H D).
       split; [pose proof H as H'; ok_from H'|ok_from H].
     + pose proof (C10.Properties.C10_strto_bad_base t s b D) as E. split; [pose proof E as E'; ok_from E'|].
       unfold strto_m in E. destruct (strto_integer_m t s b) as [x| |k|]; try discriminate. eexists; reflexivity.
